@@ -215,15 +215,23 @@ func raceMain(args []string) int {
 			for x := 0; x < (jitter*(i+1))%7*50; x++ {
 				_ = x * x
 			}
-			for _, op := range scen[i] {
-				if strings.HasPrefix(op, "NS:") {
-					parts := strings.Split(op, ":")
-					l, _ := strconv.Atoi(parts[1])
-					s, err := bip39.NewMnemonic(12, bip39.Language(l))
-					outcomes[i] = append(outcomes[i], fmt.Sprint(len(s) > 0, err))
-				} else {
-					outcomes[i] = append(outcomes[i], r.exec(op))
+			// first round from the cold start, then warm rounds (steady-state sharing)
+			for round := 0; round < 12; round++ {
+				for _, op := range scen[i] {
+					var o string
+					if strings.HasPrefix(op, "NS:") {
+						parts := strings.Split(op, ":")
+						l, _ := strconv.Atoi(parts[1])
+						s, err := bip39.NewMnemonic(12, bip39.Language(l))
+						o = fmt.Sprint(len(s) > 0, err)
+					} else {
+						o = r.exec(op)
+					}
+					if round == 0 {
+						outcomes[i] = append(outcomes[i], o)
+					}
 				}
+				r.keep = nil
 			}
 		}()
 	}
